@@ -405,7 +405,20 @@ pub fn plan(pre: &Snap, root: &[u8], inv: &Inv) -> Plan {
         if b.is_empty() || b == b".." || b == b"." {
             return Plan::Unmodelled("source without a normal last component".into());
         }
-        let troot = if d_is_dir && !inv.no_target_dir { join(&d_real, &b) } else { d_real.clone() };
+        // cp: a source spelled <dir>/. or <dir>/.. stands for that directory's contents and maps onto the
+        // destination itself, never onto dest/<name> (and certainly not onto dest/..)
+        let contents_form = {
+            let mut raw: &[u8] = s;
+            while raw.len() > 1 && raw.last() == Some(&b'/') {
+                raw = &raw[..raw.len() - 1];
+            }
+            let last = basename(raw);
+            last == b"." || last == b".."
+        };
+        if contents_form && sources.len() > 1 {
+            return Plan::Unmodelled("several sources, one of them in contents form".into());
+        }
+        let troot = if d_is_dir && !inv.no_target_dir && !contents_form { join(&d_real, &b) } else { d_real.clone() };
         if sm.kind == K::D && d_exists && !d_is_dir {
             return Plan::Reject("directory onto an existing non-directory".into());
         }
